@@ -159,6 +159,9 @@ func argLabel(a AV) string {
 
 func (r *rwRT) interp(cfg rwConfig) *Interp {
 	in := &Interp{W: r.w, MaxDepth: 12, MaxVisits: 3, MaxRecur: 2}
+	// the rewriter's own configuration fields are not modified by the functions analysed
+	in.HavocKeep = func(key string) bool { return strings.HasPrefix(key, "r.") }
+	in.Fields = map[string]AV{"r.yieldAst.seqImportedName": mkString("ʂɘʠ")}
 	bound := map[string]bool{}
 	for _, b := range rwBoundaries {
 		bound[b] = true
@@ -173,10 +176,14 @@ func (r *rwRT) interp(cfg rwConfig) *Interp {
 		if cfg.inlineAll {
 			return true
 		}
-		if fn == cfg.root {
-			return true
-		}
 		return !bound[fn.Name()]
+	}
+	in.OpaqueArgs = func(fn *ssa.Function) bool { return inRw(fn) && bound[fn.Name()] }
+	// only the rewriter's own bookkeeping objects (blocks) are mutated by the recursion;
+	// go/ast nodes handed to it keep their structure
+	in.OpaqueType = func(t types.Type) bool {
+		nt, ok := t.(*types.Named)
+		return ok && nt.Obj().Pkg() != nil && nt.Obj().Pkg().Path() == pathRw
 	}
 	in.OnCall = func(cc *CallCtx) []Answer {
 		if cfg.extra != nil {
@@ -212,8 +219,9 @@ func (r *rwRT) interp(cfg rwConfig) *Interp {
 					return []Answer{{Ret: []AV{mkBool(true)}, Label: lbl + "=true"}, {Ret: []AV{mkBool(false)}, Label: lbl + "=false"}}
 				}
 			}
+			isBlockMethod := fn.Signature.Recv() != nil && strings.HasSuffix(fn.Signature.Recv().Type().String(), "rewriter.block")
 			for _, o := range rwOracles {
-				if fn.Name() == o && fn != cfg.root {
+				if fn.Name() == o && fn != cfg.root && !isBlockMethod {
 					var as []string
 					start := 0
 					if fn.Signature.Recv() != nil {
@@ -236,15 +244,26 @@ func (r *rwRT) interp(cfg rwConfig) *Interp {
 			}
 			// methods of *block on a symbolic receiver
 			if cfg.blockOracles && fn.Signature.Recv() != nil && strings.HasSuffix(fn.Signature.Recv().Type().String(), "rewriter.block") && len(cc.Args) >= 1 {
-				if _, isSym := cc.Args[0].(Sym); isSym {
+				_, isSym := cc.Args[0].(Sym)
+				recvName := argLabel(cc.Args[0])
+				if o := cc.St.Obj(cc.Args[0]); o != nil && o.Opaque != "" {
+					isSym = true
+					recvName = o.Opaque
+				}
+				if isSym {
 					res := fn.Signature.Results()
 					if res.Len() == 1 {
 						if b, ok := res.At(0).Type().Underlying().(*types.Basic); ok && b.Info()&types.IsBoolean != 0 {
-							lbl := fn.Name() + "(" + argLabel(cc.Args[0]) + ")"
+							lbl := fn.Name() + "(" + recvName + ")"
 							return []Answer{{Ret: []AV{mkBool(true)}, Label: lbl + "=true"}, {Ret: []AV{mkBool(false)}, Label: lbl + "=false"}}
 						}
 					}
-					return nil // recorded as plain event (push, pushReturn, markCombined, ...)
+					// push, pushReturn, markCombined, pop, last...: opaque event on the symbolic block
+					var rs []AV
+					for i := 0; i < res.Len(); i++ {
+						rs = append(rs, Sym{Name: fmt.Sprintf("%s(%s)#%d", fn.Name(), recvName, i), T: res.At(i).Type()})
+					}
+					return []Answer{{Ret: rs}}
 				}
 			}
 		}
